@@ -412,7 +412,11 @@ func Supervise(e Engine, opt *Options) int {
 	for i := range all.found {
 		f := &all.found[i]
 		for _, v := range f.V {
-			cases = append(cases, &violCase{idx: f.Idx, seed: f.Seed, v: v, trace: f.Trace, sample: f.Sample})
+			vc := &violCase{idx: f.Idx, seed: f.Seed, v: v, trace: f.Trace, sample: f.Sample}
+			if _, ok := e.(PayloadRunner); ok && len(v.Payload) > 0 {
+				vc.payload = v.Payload
+			}
+			cases = append(cases, vc)
 		}
 	}
 	for i := range all.deaths {
@@ -425,7 +429,11 @@ func Supervise(e Engine, opt *Options) int {
 			fmt.Printf("MACHINERY-TROUBLE %s: worker death at run %d classified as harness trouble: %s\n", e.ID(), d.Idx, tail(v.Detail, 3000))
 			return 2
 		}
-		cases = append(cases, &violCase{idx: d.Idx, seed: RunSeed(opt.Seed, e.ID(), d.Idx), v: v, death: true, payload: d.Payload})
+		vc := &violCase{idx: d.Idx, seed: RunSeed(opt.Seed, e.ID(), d.Idx), v: v, death: true}
+		if _, ok := e.(PayloadRunner); ok && len(v.Payload) > 0 {
+			vc.payload = v.Payload
+		}
+		cases = append(cases, vc)
 	}
 	for _, c := range cases {
 		if c.v.Class == "machinery" {
@@ -467,6 +475,9 @@ func Supervise(e Engine, opt *Options) int {
 	if err := writeEvidence(e, opt, all, nViol, wall, knownSeen); err != nil {
 		fmt.Printf("MACHINERY-TROUBLE %s: evidence: %v\n", e.ID(), err)
 		return 2
+	}
+	if len(all.deaths) > 0 {
+		fmt.Printf("verif %s: %d worker deaths observed\n", e.ID(), len(all.deaths))
 	}
 	fmt.Printf("verif %s tier=%s done: runs=%d distinct_nontrivial=%d interleavings=%d violations=%d known=%d wall=%.1fs\n",
 		e.ID(), opt.Tier, all.runs, len(all.tuples), len(all.hashes), nViol, len(knownSeen), wall)
@@ -553,6 +564,9 @@ func (r *replayer) do(req *Request) (*Response, string, int, []byte) {
 func reproduces(e Engine, rp *replayer, c *violCase, tr vs.Trace, strict bool) (bool, vs.Trace, interface{}, string) {
 	opt := rp.opt
 	req := &Request{Kind: "replay", Tier: opt.Tier, Idx: c.idx, Seed: c.seed, Trace: tr, Strict: strict}
+	if c.payload != nil {
+		req = &Request{Kind: "payload", Tier: opt.Tier, Idx: c.idx, Payload: c.payload}
+	}
 	resp, stderr, code, pl := rp.do(req)
 	if resp == nil {
 		v := Violation{Class: "process-abort", Sig: "process-abort", Detail: tail(stderr, 4000)}
@@ -578,6 +592,9 @@ func processViolation(e Engine, opt *Options, c *violCase) (string, string) {
 	fresh := &replayer{opt: opt, fresh: true}
 	persistent := &replayer{opt: opt}
 	defer persistent.close()
+	if c.payload != nil {
+		return processPayloadViolation(e, opt, c, rf, fresh, persistent)
+	}
 	// 1. confirm from the seed alone (trace nil => generate) in a fresh process.
 	ok, tr2, sample, detail := reproduces(e, fresh, c, nil, false)
 	if !ok {
@@ -641,6 +658,59 @@ func processViolation(e Engine, opt *Options, c *violCase) (string, string) {
 	return path, "confirmed"
 }
 
+func processPayloadViolation(e Engine, opt *Options, c *violCase, rf *ReplayFile, fresh, persistent *replayer) (string, string) {
+	ok, _, sample, detail := reproduces(e, fresh, c, nil, false)
+	if !ok {
+		return "", "payload did not reproduce in a fresh process"
+	}
+	rf.Scenario = sample
+	if detail != "" {
+		rf.Violation.Detail = detail
+	}
+	if !opt.NoShrink {
+		deadline := time.Now().Add(60 * time.Second)
+		pr := e.(PayloadRunner)
+		rp := persistent
+		if c.death {
+			rp = fresh // each attempt may kill the worker anyway
+		}
+		orig := c.payload
+		attempts := 0
+		best := pr.ShrinkPayload(orig, func(cand []byte) bool {
+			attempts++
+			cc := *c
+			cc.payload = cand
+			ok, _, _, _ := reproduces(e, rp, &cc, nil, false)
+			return ok
+		}, deadline)
+		rf.Attempts = attempts
+		rf.Shrunk = true
+		c.payload = best
+	}
+	for i := 0; i < 2; i++ {
+		ok, _, smp, det := reproduces(e, fresh, c, nil, false)
+		if !ok {
+			return "", "minimised payload did not reproduce in a fresh process"
+		}
+		if smp != nil {
+			rf.Scenario = smp
+		}
+		if det != "" {
+			rf.Violation.Detail = det
+		}
+	}
+	rf.Payload = hex.EncodeToString(c.payload)
+	rf.Violation.Payload = nil
+	b, _ := json.MarshalIndent(rf, "", " ")
+	h := sha256.Sum256(b)
+	os.MkdirAll(opt.ReplayDir, 0o755)
+	path := filepath.Join(opt.ReplayDir, fmt.Sprintf("%s-%d-%s.json", e.ID(), c.seed, hex.EncodeToString(h[:4])))
+	if err := os.WriteFile(path, b, 0o644); err != nil {
+		return "", "cannot write replay file: " + err.Error()
+	}
+	return path, "confirmed"
+}
+
 // replayMain: <bin> replay <file> [-scratch dir]; exit 1 if the violation recurs.
 func replayMain(e Engine, args []string) int {
 	fs := flag.NewFlagSet("replay", flag.ExitOnError)
@@ -664,6 +734,9 @@ func replayMain(e Engine, args []string) int {
 	}
 	opt.Tier = rf.Tier
 	c := &violCase{idx: rf.Idx, seed: rf.Seed, v: rf.Violation, death: rf.Death}
+	if rf.Payload != "" {
+		c.payload, _ = hex.DecodeString(rf.Payload)
+	}
 	ok, _, _, detail := reproduces(e, &replayer{opt: &opt, fresh: true}, c, rf.Trace, rf.Trace != nil)
 	if ok {
 		fmt.Printf("replayed: %s\n%s\n", rf.Violation.Sig, tail(detail, 4000))
